@@ -123,6 +123,12 @@ def anchorless_allowed(stmts, inputs, optimize: bool) -> set:
         if not isinstance(e, list) or not e or not isinstance(e[0], str):
             return e
         e2 = [e[0]] + [canon(x) if isinstance(x, list) else x for x in e[1:]]
+        if e2[0] == "projt" and it_ is not None:
+            # `x | name.type` is `x | "T"` with T the type of name
+            src = env_.get(e[2])
+            if isinstance(src, lang.Sig) and src.type:
+                e2 = ["proj", e2[1], src.type]
+                e = ["proj", e[1], src.type]
         if e2[0] == "proj" and it_ is not None:
             try:
                 v = it_.ev(e[1], env_)
